@@ -30,8 +30,17 @@ func TestStress(t *testing.T) {
 		}
 	}
 	n := r.Pick(2000, 150000)
-	for i := 0; i < n; i++ {
-		if !r.Mine(i) {
+	var srp sreplay
+	only := -2
+	if mon.ReplayCase(&srp) { // re-run one recorded history (schedules differ from run to run: it is repeated 50 times)
+		only = srp.Stress
+		n = 50
+	}
+	for j := 0; j < n; j++ {
+		i := j
+		if only >= 0 {
+			i = only
+		} else if !r.Mine(i) {
 			continue
 		}
 		fm := []string{"nclient4", "nclient6"}[i%2]
